@@ -191,6 +191,25 @@ def read_map_spec(text):
     return d
 
 
+def writer_image(text):
+    """the text is what the map writer produces: no byte-order mark, \r\n-terminated rows of exactly two
+    tab-separated cells, every peptide once, a non-empty protein cell.  C09 says "a map written to a file reads back
+    unchanged": only such files are judged by the oracle (audit-3 C09-10); what the reader does with other texts is
+    pinned by the model comparison alone."""
+    if text.startswith("\ufeff") or '"' in text:
+        return False
+    rows = text.split("\r\n")
+    if rows and rows[-1] == "":
+        rows.pop()
+    seen = set()
+    for r in rows:
+        f = r.split("\t")
+        if len(f) != 2 or f[0] in seen or f[1] == "" or "\n" in r or "\r" in r:
+            return False
+        seen.add(f[0])
+    return True
+
+
 class P(Prop):
     id = "C09"
     # True: a map call on parameter objects that an earlier iBAQ call rewrote must still return the map of the REQUESTED
@@ -405,6 +424,9 @@ class P(Prop):
         ]
 
     def _result_view(self, digest, res, lookups):
+        if not isinstance(res, (tuple, dict)) and not hasattr(res, "items"):
+            # not a map at all (e.g. None standing for "no input"): recorded as such, nothing raised (audit-3 C09-11)
+            return {"map": None, "seqs": None, "lookups": [], "not_a_map": type(res).__name__}, []
         if isinstance(res, tuple):
             m, seqs = dict(res[0]), dict(res[1])
         else:
@@ -546,6 +568,12 @@ class P(Prop):
             if case["kind"] == "params" and case.get("seq") and isinstance(out["main"], dict) and "map" in out["main"]:
                 out["seq"] = self._run_seq(digest, case, paths, fn)
             out["_rec"] = {"items": items}
+            if case["kind"] == "params":
+                # methionine-cleavage setting / database kind of the real parameter objects (audit-3 C08-6)
+                try:
+                    out["_rec"]["real"] = [{"met": q.methionine_cleavage, "db": q.db} for q in self._mk_params(case)]
+                except Exception:
+                    out["_rec"]["real"] = None
         return out
 
     def _run_seq(self, digest, case, paths, fn):
@@ -718,8 +746,10 @@ class P(Prop):
         return v
 
     # ------------------------------------------------------------------ the property
-    def _expected(self, case):
-        """(jobs listings, db records per file, distinct ids?) or None when a file is malformed"""
+    def _expected(self, case, real=None):
+        """(jobs listings, db records per file, distinct ids?) or None when a file is malformed.  `real`: the
+        methionine-cleavage setting and database kind of the real parameter objects, when recorded (the property
+        quantifies over every such setting; without a recording: Met removal on, database by the decoy flag)"""
         if any(f["records"] is None for f in case["files"]):
             return None
         rules = rule_table()
@@ -736,16 +766,21 @@ class P(Prop):
         else:
             p0 = case["params"][0]
             db = "target" if p0["contains_decoys"] else "concat"
+            if not (isinstance(real, list) and len(real) == len(case["params"]) and all(isinstance(q, dict) for q in real)):
+                real = [{} for _ in case["params"]]
+            if real[0].get("db") in ("concat", "target"):
+                db = real[0]["db"]
             special = special_list(p0["special"])
             recs = [db_records(f["records"], case["parse_id"], db, special) for f in case["files"]]
             jobs, hashed, windows, plain = [], [], [], []
             for fi in range(len(case["files"])):
-                for p in case["params"]:
+                for p, q in zip(case["params"], real):
                     if p["enzyme"] not in rules:
                         return None
                     r = rules[p["enzyme"]]
                     mode = eff_mode(p["enzyme"], p["digestion"])
-                    jobs.append((fi, listing(recs[fi], (r["pre"], r["not_post"], r["post"]), p["min"], p["max"], mode, p["mc"], True, mode == "none")))
+                    met = q["met"] if isinstance(q.get("met"), bool) else True
+                    jobs.append((fi, listing(recs[fi], (r["pre"], r["not_post"], r["post"]), p["min"], p["max"], mode, p["mc"], met, mode == "none")))
             for p in case["params"]:
                 hashed.append(eff_mode(p["enzyme"], p["digestion"]) == "none")
                 plain.append(not hashed[-1])
@@ -757,7 +792,7 @@ class P(Prop):
             return self._maps_oracle(case, impl_out)
         if not isinstance(impl_out, dict) or "main" not in impl_out:
             return "no output"
-        exp = self._expected(case)
+        exp = self._expected(case, (impl_out.get("_rec") or {}).get("real"))
         if exp is None:
             return None  # malformed file / unknown enzyme: compared with the model only
         jobs, recs, hashed, windows, plain = exp
@@ -808,7 +843,7 @@ class P(Prop):
                 if all(hashed) and len(hashed) == 1:
                     if windows[0][0] <= len(q) <= windows[0][1]:
                         w = sorted(pid for pid, seq in allrecs if q in seq)
-                        if l != w:
+                        if sorted(l) != w:  # no order in "returns exactly the proteins whose sequence contains the peptide" (audit-3 C09-8)
                             return f"non-specific lookup of {q!r}: {l}, but the sequences containing it are {w}"
                 elif all(plain):
                     if l != got.get(q, []):
@@ -897,8 +932,11 @@ class P(Prop):
 
     # known-finding candidate (DESIGN.md §9 item 8, first part)
     def kf_multi_params_listing(self, case, impl_out, rec):
+        # recognised by its own signature (category of the oracle failure), whether or not the model also disagrees
+        # on this case: a change that only breaks the correspondence must not turn the listed finding into a fresh
+        # failing input (same defect as audit-3 C11-5; the broken correspondence is reported from the other cases)
         o = rec.get("oracle")
-        return isinstance(o, str) and o.startswith("multi-params:") and rec.get("disagree") is None
+        return isinstance(o, str) and o.startswith("multi-params:")
 
     # ==================================================================================================
     # kind "maps": the list of maps, one per digestion parameter set, as `python -m picked_group_fdr` and
@@ -1126,12 +1164,14 @@ class P(Prop):
             def guarded(fn):
                 try:
                     return fn()
-                except ValueError as e:
-                    if "unequal length" in str(e):
+                except ValueError:
+                    # recognised by TYPE and by the condition of the input that the refusal belongs to, never by the
+                    # message text (audit-3 X2); the list builder is reached first, then the source of the maps
+                    if sets == "unequal_lengths":
                         return {"err": "unequal_lengths"}
-                    if "No fasta or peptide to protein mapping file" in str(e):
+                    if not paths and not mpaths:
                         return {"err": "no_input"}
-                    raise
+                    return {"err": "value_error"}
                 except KeyError as e:
                     if isinstance(sets, list) and any(st["enzyme"] not in digest.ENZYME_CLEAVAGE_RULES for st in sets):
                         return {"err": "unknown_enzyme"}
@@ -1150,6 +1190,16 @@ class P(Prop):
                             q.methionine_cleavage = o["met"]
                         ps.append(q)
                     return ppm.get_peptide_to_protein_maps(paths, mpaths or None, ps, pgpath, parse_id=self._parse_fn(case["parse_id"]))
+
+                # settings of the real objects where the case leaves them to the constructor (audit-3 C08-6)
+                try:
+                    real = []
+                    for o in case["objs"]:
+                        q = DigestionParams(o["enzyme"], o["digestion"], o["min"], o["max"], o["mc"], o["special"], o["contains_decoys"])
+                        real.append({"met": q.methionine_cleavage if o["met"] is None else o["met"], "db": q.db if o["db"] is None else o["db"]})
+                    out["_rec"] = {"real": real}
+                except Exception:
+                    out["_rec"] = {"real": None}
             else:
                 fl = case["flags"]
                 argv = (["--fasta", *paths] if paths else []) + (["--peptide_protein_map", *mpaths] if mpaths else [])
@@ -1159,6 +1209,15 @@ class P(Prop):
 
                 def build():
                     return ppm.get_peptide_to_protein_maps_from_args(self._parse_argv(case, argv), fl["pseudo"])
+
+                # the methionine-cleavage setting and database kind of the parameter objects the real list builder makes
+                # of this command line (the oracle instantiates the rule with them, audit-3 C08-6)
+                try:
+                    from picked_group_fdr.digestion_params import get_digestion_params_list
+
+                    out["_rec"] = {"real": [{"met": q.methionine_cleavage, "db": q.db} for q in get_digestion_params_list(self._parse_argv(case, argv))]}
+                except BaseException:
+                    out["_rec"] = {"real": None}
 
             res = guarded(build)
             if isinstance(res, dict):
@@ -1226,19 +1285,28 @@ class P(Prop):
         rules = rule_table()
         sets = self._maps_sets(case)
         if sets == "unequal_lengths":
-            return None if maps == {"err": "unequal_lengths"} else f"option lists of unequal length {case['lists']} were accepted: {str(maps)[:200]}"
+            return None  # C09 does not say what such a command line means; the refusal is pinned by the model (audit-3 C08-5)
+        real = (impl_out.get("_rec") or {}).get("real")
+        if isinstance(real, list) and isinstance(sets, list) and len(real) == len(sets):
+            for st, q in zip(sets, real):
+                if isinstance(q.get("met"), bool):
+                    st["met"] = q["met"]
+                if q.get("db") in ("concat", "target"):
+                    st["db"] = q["db"]
         if not case["files"]:
             # --- the file branch: one map per file, each what the file says
             if not case["mapfiles"]:
-                return None if maps == {"err": "no_input"} else "neither FASTA nor map files, but no refusal"
+                return None  # neither FASTA nor map files: outside the text (model comparison only; audit-3 C09-11)
+            if not all(writer_image(t) for t in case["mapfiles"]):
+                return None  # hand-made texts the writer never produces: model comparison only (audit-3 C09-10)
             want = [read_map_spec(t) for t in case["mapfiles"]]
-            if any(w == "index_error" for w in want):
-                return None if maps == {"err": "index_error"} else f"a map file with a one-column row was read as {str(maps)[:200]}"
             if isinstance(maps, dict):
                 return f"reading the map files raised {maps['err']}"
             if len(maps) != len(want):
                 return f"{len(want)} map files but {len(maps)} maps"
             for i, (m, w) in enumerate(zip(maps, want)):
+                if m["map"] is None:
+                    return f"map file {i}: no map was returned ({m.get('not_a_map')})"
                 if m["map"] != w or m["seqs"] is not None:
                     return f"map file {i} says {w}, but the map read from it is {m['map']}"
                 for q, l in zip(case["lookups"], m["lookups"]):
@@ -1272,6 +1340,8 @@ class P(Prop):
             want = listing(w["recs"], (r["pre"], r["not_post"], r["post"]), st["min"], st["max"], w["mode"], st["mc"], st["met"], hashed)
             where = (f"map {i} of {len(sets)} (enzyme={st['enzyme']}, digestion={st['digestion']}, length {st['min']}-{st['max']}, "
                      f"{st['mc']} missed cleavages, special-aas={st['special']}, db={st['db']}, met={st['met']})")
+            if m["map"] is None:
+                return f"{where}: no map was returned ({m.get('not_a_map')})"
             if m["map"] != want:
                 k = next(k for k in sorted(set(m["map"]) | set(want)) if m["map"].get(k) != want.get(k))
                 return f"{where}: entry {k!r} is {m['map'].get(k)}, but the proteins of the database whose digestion under THIS parameter set yields it are {want.get(k)}"
@@ -1281,7 +1351,7 @@ class P(Prop):
                 if hashed:
                     if st["min"] <= len(q) <= st["max"]:
                         ws = sorted(pid for pid, seq in w["recs"] if q in seq)
-                        if l != ws:
+                        if sorted(l) != ws:  # "returns exactly the proteins whose sequence contains the peptide": no order (audit-3 C09-8)
                             return f"{where}: non-specific lookup of {q!r}: {l}, but the sequences containing it are {ws}"
                 elif l != want.get(q, []):
                     return f"{where}: lookup of {q!r}: {l} differs from the entry {want.get(q, [])}"
